@@ -373,16 +373,19 @@ Bounded('C12', 'guillot_runtime', _b_guillot, doc='finiteness/positivity need pr
 # ------------------------------------------------------------------ NPoint.profile: nodes joined in log-pressure, smoothed
 def _np_params(c):
     k = c.choice('K')                       # interior nodes
+    user = c.choice('ends') == 'user'       # surface / top node pressures given by the user, or taken from the pressure grid (-1)
     n = c.int('n')
     return dict(self=ObjSpec('NPoint', _T_surface=c.real('Ts'), _T_top=c.real('Tt'), _t_points=[c.real('Tn%d' % i) for i in range(k)],
-                             _P_surface=-1, _P_top=-1, _p_points=[c.real('Pn%d' % i) for i in range(k)], _smooth_window=c.real('smooth'),
+                             _P_surface=c.real('Psurf') if user else -1, _P_top=c.real('Ptop') if user else -1, _p_points=[c.real('Pn%d' % i) for i in range(k)], _smooth_window=c.real('smooth'),
                              _limit_slope=c.real('limit'), nlayers=n, pressure_profile=c.array('P', (n,))))
 
 
 def _np_nodes(c, v):
     s = v.self
     n = s.nlayers
-    P = [s.pressure_profile[0]] + list(s._p_points) + [s.pressure_profile[n - 1]]
+    fx = c.fixed if c.mode != 'conc' else c.values
+    user = fx['ends'] == 'user'
+    P = [s._P_surface if user else s.pressure_profile[0]] + list(s._p_points) + [s._P_top if user else s.pressure_profile[n - 1]]
     T = [s._T_surface] + list(s._t_points) + [s._T_top]
     return P, T
 
@@ -393,7 +396,8 @@ def _np_pre(c, v):
     return {'layers': n >= 2,
             'pressure_decreasing_positive': c.And(c.Forall(0, n, lambda i: s.pressure_profile[i] > 0),
                                                   c.Forall2((0, n), (0, n), lambda i, j: c.Implies(i < j, s.pressure_profile[i] > s.pressure_profile[j]))),
-            'nodes_positive': c.And(*[c.Lt(0, p) for p in s._p_points]) if len(s._p_points) else True,
+            'nodes_positive': c.And(*[c.Lt(0, p) for p in list(s._p_points) + ([s._P_surface, s._P_top] if (c.fixed if c.mode != 'conc' else c.values)['ends'] == 'user' else [])])
+            if (len(s._p_points) or (c.fixed if c.mode != 'conc' else c.values)['ends'] == 'user') else True,
             'limit': c.Lt(0, s._limit_slope),
             'smoothing_window_in_percent': c.And(s._smooth_window > 0, s._smooth_window < 100)}
 
@@ -459,7 +463,10 @@ def _np_gen(rng):
     P = sorted((10 ** rng.uniform(-3, 6) for _ in range(n)), reverse=True)
     Pn = sorted((10 ** rng.uniform(-3, 6) for _ in range(K)), reverse=True)
     d = dict(n=n, K=K, P=P, Ts=rng.uniform(300, 3000), Tt=rng.uniform(300, 3000), smooth=rng.choice([10, rng.uniform(1, 99)]),
-             limit=rng.choice([9999999.0, 9999999.0, 2000.0]))
+             limit=rng.choice([9999999.0, 9999999.0, 2000.0]), ends=rng.choice(['grid', 'user']))
+    if d['ends'] == 'user':
+        d['Psurf'], d['Ptop'] = 10 ** rng.uniform(3, 7), 10 ** rng.uniform(-5, 2)
+        Pn = sorted((10 ** rng.uniform(2, 3) for _ in range(K)), reverse=True)
     if rng.random() < 0.15:
         d['Tt'] = d['Ts']
     for i in range(K):
@@ -469,8 +476,10 @@ def _np_gen(rng):
 
 
 NPP = Unit('C12', TP + 'npoint:NPoint.profile', _np_params, pre=_np_pre, post=_np_post, raises=_np_raises, native=_np_native, gen=_np_gen,
-           cases=[{'K': k} for k in (0, 1, 2)], bounds=[dict(n=3)], safety=('index', 'div', 'domain', 'sorted'), short='NPoint.profile',
-           doc='node-based profile (0..2 interior nodes at code level, any layer count >= 2, surface/top pressures taken from the grid): invalid '
+           cases=[{'K': k, 'ends': e} for k in (0, 1, 2) for e in ('grid', 'user')], bounds=[dict(n=3)], safety=('index', 'div', 'domain', 'sorted'),
+           short='NPoint.profile',
+           doc='node-based profile (0..2 interior nodes at code level, any layer count >= 2, surface/top node pressures from the grid or given '
+               'by the user, inside or outside the grid): invalid '
                'node sets rejected (check_profile by its contract), otherwise one temperature per layer inside the range of the control '
                'temperatures, smoothing included (np.interp between-neighbours fact, movingaverage by contract, sum_between lemma)')
 
